@@ -9,7 +9,8 @@ from vmc import core, hist, space
 PROPERTY = "C12"
 ENGINE = "E2 histories"
 RULE = ("every history up to the depth bound over {define subclass_i (each once, grandchild after its parent), decode(tag_j), "
-        "decode(missing tag), decode(unknown tag), decode via subclass, field-less decode of 4 shapes} x 3 wirings (Config.discriminator, "
+        "decode(missing tag), decode(unknown tag), decode via subclass, field-less decode of 4 shapes, the same decodes through the "
+        "format decoder of a format-mixin hierarchy} x wirings (Config.discriminator on DataClassDictMixin and on the orjson mixin, "
         "Annotated field of a mixin holder, BasicDecoder) x discriminator settings (field / no field, include_subtypes / supertypes, "
         "variant_tagger_fn none / single / list): each decode returns an instance of the class carrying the tag among the classes defined "
         "SO FAR (computed from the history), or the documented error. Non-trivial: a decode executed after at least one define.")
@@ -26,7 +27,7 @@ SHAPES = {"A": {"a": 1}, "B": {"b": 2}, "AC": {"a": 1, "c": 3}, "Z": {"z": 0}}
 
 
 def bounds(tier):
-    return dict(tier=tier, wirings=["config", "holder", "holder2 (two discriminated fields, two tagger functions)", "codec"], settings=len(_settings()), history_depth=6 if tier == "quick" else 8,
+    return dict(tier=tier, wirings=["config", "configfmt (orjson mixin: from_dict and from_json interleaved)", "holder", "holder2 (two discriminated fields, two tagger functions)", "codec"], settings=len(_settings()), history_depth=6 if tier == "quick" else 8,
                 subclasses=list(SUBS))
 
 
@@ -41,9 +42,9 @@ def _settings():
 
 def units(tier):
     out = []
-    for wiring in ("config", "holder", "holder2", "codec"):
+    for wiring in ("config", "configfmt", "holder", "holder2", "codec"):
         for st in _settings():
-            if wiring == "config" and not st[1]:
+            if wiring in ("config", "configfmt") and not st[1]:
                 continue      # a Config discriminator requires include_subtypes (documented ValueError)
             if wiring == "holder2" and not (st[0] and st[3]):
                 continue      # the two-field holder is about two different tagger functions
@@ -75,8 +76,13 @@ class Fam:
                 + (", variant_tagger_fn=_tagger" if tagger else "") + ")")
         self.disc_src = disc
         base = "DataClassDictMixin" if wiring in ("config", "holder", "holder2") else ""
+        if wiring == "configfmt":
+            # the hierarchy is built on a format mixin: every class has a second, per-format decoder that is compiled on demand
+            from mashumaro.mixins.orjson import DataClassORJSONMixin
+            ns["DataClassORJSONMixin"] = DataClassORJSONMixin
+            base = "DataClassORJSONMixin"
         src = f"@dataclass\nclass Base({base}):\n    t: ClassVar[str] = 'base'\n"
-        if wiring == "config":
+        if wiring in ("config", "configfmt"):
             src += f"    class Config(BaseConfig):\n        discriminator = {disc}\n"
         self.ctx.run(src)
         self.defined = []
@@ -99,11 +105,14 @@ class Fam:
         self.ctx.run(f"@dataclass\nclass {name}({PARENT[name]}):\n    t: ClassVar[str] = {TAG[name]!r}\n{fields}")
         self.defined.append(name)
 
-    def decode(self, d, via=None):
+    def decode(self, d, via=None, fmt=False):
         ns = self.ctx.ns
+        if fmt:
+            import orjson
+            return ns[via or "Base"].from_json(orjson.dumps(d))
         if via is not None:
             return ns[via].from_dict(d)
-        if self.wiring == "config":
+        if self.wiring in ("config", "configfmt"):
             return ns["Base"].from_dict(d)
         if self.wiring == "holder":
             return ns["Holder"].from_dict({"x": d}).x
@@ -130,6 +139,29 @@ def _root_error(e):
     return type(e).__name__
 
 
+class _Hung(BaseException):
+    """not an Exception: the generated dispatchers swallow Exception while trying variants"""
+
+
+class _deadline:
+    def __init__(self, seconds):
+        self.seconds = seconds
+
+    def __enter__(self):
+        import signal
+
+        def on(sig, frm):
+            raise _Hung()
+        self.old = signal.signal(signal.SIGPROF, on)
+        signal.setitimer(signal.ITIMER_PROF, self.seconds)
+
+    def __exit__(self, *a):
+        import signal
+        signal.setitimer(signal.ITIMER_PROF, 0)
+        signal.signal(signal.SIGPROF, self.old)
+        return False
+
+
 class Model:
     def __init__(self, wiring, st):
         self.wiring, self.st = wiring, st
@@ -142,8 +174,11 @@ class Model:
             ops += [("decode", t) for t in all_tags] + [("decode", "<missing>"), ("decode", "<unknown>")]
         else:
             ops += [("shape", s) for s in SHAPES]
-        if wiring == "config":
+        if wiring in ("config", "configfmt"):
             ops += [("via", "Sub1")]
+        if wiring == "configfmt":
+            # the same inputs through the format decoder (from_json), in any order with the from_dict ones
+            ops += [("f" + o[0], o[1]) for o in ops if o[0] in ("decode", "shape", "via")]
         self.ops = ops
 
     def initial(self):
@@ -159,7 +194,7 @@ class Model:
             if op[0] == "define":
                 if op[1] in defined or (PARENT[op[1]] != "Base" and PARENT[op[1]] not in defined):
                     continue
-            if op[0] == "via" and op[1] not in defined:
+            if op[0] in ("via", "fvia") and op[1] not in defined:
                 continue
             out.append(op)
         return out
@@ -171,6 +206,9 @@ class Model:
                 return ("ok", "defined")
             except Exception as e:   # noqa: BLE001
                 return ("exc", type(e).__name__)
+        fmt = op[0] in ("fdecode", "fshape", "fvia")
+        if fmt:
+            op = (op[0][1:], op[1])
         if op[0] == "decode":
             d = dict(FULL)
             if op[1] != "<missing>":
@@ -181,17 +219,22 @@ class Model:
         else:
             d, via = dict(FULL, t="s3"), op[1]
         try:
-            r = f.decode(d, via)
+            with _deadline(10):
+                r = f.decode(d, via, fmt)
             return ("ok", (type(r).__name__, tuple((fl.name, getattr(r, fl.name)) for fl in dataclasses.fields(r))))
         except RecursionError:
             return ("exc", "RecursionError")
+        except _Hung:
+            return ("exc", "did-not-return-within-10s-cpu")
         except Exception as e:   # noqa: BLE001
             return ("exc", _root_error(e))
 
     # ---- oracle computed from the history alone ------------------------------------------
     def expected(self, h, op):
         field, subt, supt, tagger = self.st
-        if self.wiring == "config":
+        if op[0] in ("fdecode", "fshape", "fvia"):
+            op = (op[0][1:], op[1])      # the format decoder must pick the same class
+        if self.wiring in ("config", "configfmt"):
             supt = False      # documented: the class-level discriminator never yields the class itself
         defined = [o[1] for o in h if o[0] == "define"]
         if op[0] == "define":
